@@ -156,6 +156,61 @@ func c18SameSegment(leafFirst bool, kind, id string) string {
 // c18Rewrite: a handler reads the query, the request's query string is replaced (as a middleware that
 // strips or rewrites parameters does), and the handler reads again: the accessors answer for the request
 // as it is when they are called.
+// c18FormParsed: a request with a form body (POST/PUT/PATCH, urlencoded) whose fields carry the names of URL
+// parameters, or names the URL does not have: the Query accessors read the URL parameters - before and after
+// something in the chain (a form binder, a CSRF check) has had net/http parse the form.
+func c18FormParsed(method, urlVal string, urlHas bool, how string) string {
+	f := flamego.NewWithLogger(io.Discard)
+	type reads struct {
+		q, list, only string
+		n             int
+	}
+	var before, after reads
+	read := func(c flamego.Context) reads {
+		return reads{c.Query("k", "DEF"), strings.Join(c.QueryStrings("k"), "|"), c.Query("bodyonly", "DEF2"), c.QueryInt("k", 77)}
+	}
+	f.Routes("/q", "POST,PUT,PATCH,GET", func(c flamego.Context) {
+		before = read(c)
+		switch how {
+		case "ParseForm":
+			_ = c.Request().ParseForm()
+		case "FormValue":
+			_ = c.Request().FormValue("k")
+		case "PostFormValue":
+			_ = c.Request().PostFormValue("bodyonly")
+		}
+		after = read(c)
+	})
+	req := newReq(method, "/q")
+	if urlHas {
+		req.URL.RawQuery = "k=" + url.QueryEscape(urlVal)
+	}
+	req.Header.Set("Content-Type", "application/x-www-form-urlencoded")
+	req.Body = io.NopCloser(strings.NewReader("k=9&bodyonly=b&k=10"))
+	var pan interface{}
+	func() {
+		defer func() { pan = recover() }()
+		f.ServeHTTP(&c01Spy{hdr: http.Header{}}, req)
+	}()
+	if pan != nil {
+		return fmt.Sprintf("panicked: %v", pan)
+	}
+	want := reads{"DEF", "", "DEF2", 77}
+	if urlHas && urlVal != "" {
+		n, _ := strconv.Atoi(urlVal)
+		want = reads{urlVal, urlVal, "DEF2", n}
+	} else if urlHas {
+		want = reads{"DEF", "", "DEF2", 77}
+	}
+	if before != want {
+		return fmt.Sprintf("%s with a form body, before the form is parsed: read %+v, the URL parameters give %+v", method, before, want)
+	}
+	if after != want {
+		return fmt.Sprintf("%s with a form body, after %s: read %+v, the URL parameters give %+v (before: %+v)", method, how, after, want, before)
+	}
+	return ""
+}
+
 func c18Rewrite(first, second string, secondAbsent bool) string {
 	f := flamego.NewWithLogger(io.Discard)
 	var a1, a2, s1, s2 string
@@ -243,7 +298,7 @@ func c18Siblings(kind string, firstIsO bool, val string) string {
 	return ""
 }
 
-// c18AfterRefused: bind parameters read after requests that the same routes refused half way (a match-all
+// c18AfterRefused: query accessors of requests with a form body before and after the form is parsed; bind parameters read after requests that the same routes refused half way (a match-all
 // that ran over its capture limit, a route that failed at its last segment): what a request reads is what its
 // own path holds. One instance, requests in sequence; "" = must be not found.
 func c18AfterRefused() (bad string, at int) {
@@ -627,7 +682,7 @@ func c18Run(r *core.Run) {
 		maxLen = 3
 		r.SetBudget(12 * time.Minute)
 	}
-	r.Rule = "engine E: raw query text / bind parameter text / cookie text = absent, empty, EVERY byte string of length <=2 (thorough 3) over all 256 bytes, and a numeric corpus (signs, bases, overflow, 1e999, NaN, blanks) through every accessor with and without a default (queries also with the parameter name percent-escaped); cookie values of every byte string of length <=2 (thorough 3) through SetCookie -> Set-Cookie -> client -> Cookie header -> Cookie(); oracle: no panic, presence by url.ParseQuery / http.Request.Cookie, value by strconv (0 on malformed), absent or empty gives the default or zero, cookies read back byte for byte (also when set inside a before-function of the writer or after Next()); request data read before and after a sub-request served on the same instance inside the handler (after 0..2 earlier requests) is the request's own; bind parameters read after requests that the same routes refused half way (capture limit overrun, last segment missing); non-trivial = text that is present and non-numeric, or a cookie value containing a byte outside [A-Za-z0-9]"
+	r.Rule = "engine E: raw query text / bind parameter text / cookie text = absent, empty, EVERY byte string of length <=2 (thorough 3) over all 256 bytes, and a numeric corpus (signs, bases, overflow, 1e999, NaN, blanks) through every accessor with and without a default (queries also with the parameter name percent-escaped); cookie values of every byte string of length <=2 (thorough 3) through SetCookie -> Set-Cookie -> client -> Cookie header -> Cookie(); oracle: no panic, presence by url.ParseQuery / http.Request.Cookie, value by strconv (0 on malformed), absent or empty gives the default or zero, cookies read back byte for byte (also when set inside a before-function of the writer or after Next()); request data read before and after a sub-request served on the same instance inside the handler (after 0..2 earlier requests) is the request's own; query accessors of requests with a form body before and after the form is parsed; bind parameters read after requests that the same routes refused half way (capture limit overrun, last segment missing); non-trivial = text that is present and non-numeric, or a cookie value containing a byte outside [A-Za-z0-9]"
 	r.Assumptions = []string{"net/url, net/http cookie parsing and strconv are the reference parsers (trusted)", "QueryTrim/QueryUnescape apply their conversion to the default as well; the default used (DEF) is not altered by either", "QueryStrings returns the list as parsed when the key occurs at all (a list holding one empty string is a present list)"}
 	numeric := []string{"0", "1", "-1", "+1", "007", "12345678901234567890", "-9223372036854775808", "9223372036854775807", "9223372036854775808", "0x10", "1e3", "1e999", "-1e999", "NaN", "nan", "Inf", "-inf", " 1", "1 ", "1_000", "1.5", ".5", "5.", "true", "TRUE", "t", "T", "1", "false", "F", "yes", "１", "%31", "%2B1", "+", "-", "1%001",
 		// blanks beyond ASCII around a value (QueryTrim trims what unicode calls white space)
@@ -764,6 +819,27 @@ func c18Run(r *core.Run) {
 				l.Violate("cookie-roundtrip/several-cookies", bad, c18Case{Mode: "several-cookies", RawHex: fmt.Sprintf("%x", strings.Join(names, ",")), Raw: val, Absent: false})
 			} else {
 				l.Class("cookie:several-on-one-response")
+			}
+		}
+	}
+	for _, method := range []string{"POST", "PUT", "PATCH", "GET"} {
+		for _, how := range []string{"ParseForm", "FormValue", "PostFormValue"} {
+			for _, uv := range []string{"7", "x y", "", "\x00absent"} {
+				l.Evals++
+				l.Transitions += 2
+				l.Traces++
+				l.NonTrivial++
+				l.States++
+				has := uv != "\x00absent"
+				v := uv
+				if !has {
+					v = ""
+				}
+				if bad := c18FormParsed(method, v, has, how); bad != "" {
+					l.Violate("query-after-the-form-was-parsed/"+how, bad, c18Case{Mode: "form-parsed", RawHex: fmt.Sprintf("%x", v), Raw: method, Inner: how, Absent: !has})
+				} else {
+					l.Class("query:request-with-a-form-body")
+				}
 			}
 		}
 	}
@@ -930,6 +1006,8 @@ func c18Replay(raw json.RawMessage) (bool, string) {
 		bad = c18Nested(s, c.Inner, c.Warm)
 	case "after-refused":
 		bad, _ = c18AfterRefused()
+	case "form-parsed":
+		bad = c18FormParsed(c.Raw, s, !c.Absent, c.Inner)
 	case "several-cookies":
 		bad = c18Several(strings.Split(s, ","), c.Raw)
 	}
